@@ -2,6 +2,7 @@
 # usage: try_seed.sh <seed id> [checks...]
 S=$1; shift; CHECKS=${@:-${S%%-*}}
 cd /verif
+trap "git -C /repo checkout -- . 2>/dev/null" EXIT PIPE INT TERM
 git -C /repo apply /verif/seeded/$S/patch.diff || exit 1
 for c in $CHECKS; do out=$(./check $c 2>&1); echo "== $S [$c]: $(echo "$out" | grep -c '^VIOLATION') violation(s)"; echo "$out" | grep -E "^  R[0-9]+|ERROR|Traceback" | head -5 | cut -c1-220; done
 git -C /repo checkout -- .
